@@ -253,12 +253,17 @@ def check_settings(ctx, case):
                  sight_height_in=2.0, atmo={"kind": "icao", "alt_ft": 0.0})
     if "cZeroFindingAccuracy" in given and given["cZeroFindingAccuracy"] >= 0.5:
         # a half-foot tolerance accepts the starting elevation of this shot (error ~ inches): A returns the start, B a real zero
-        ctx.count("accuracy_checked")
         with monitors.quiet():
             # at 100 ft and >= 1500 ft/s the un-zeroed miss is sight height + drop < 0.25 ft
-            za = a.barrel_elevation_for_target(build.shot(zspec), Distance.Foot(100.0)) >> Angular.Radian
+            try:
+                za = a.barrel_elevation_for_target(build.shot(zspec), Distance.Foot(100.0)) >> Angular.Radian
+            except pb.RangeError:
+                za = None        # A's own limits (minimum velocity / drop / altitude) end the flight before 100 ft: nothing to compare
+                ctx.count("accuracy_out_of_reach_under_own_limits")
             zb = b.barrel_elevation_for_target(build.shot(zspec), Distance.Foot(100.0)) >> Angular.Radian
-        if za != 0.0:
+        if za is not None:
+            ctx.count("accuracy_checked")
+        if za is not None and za != 0.0:
             ctx.violation("accuracy-not-honoured", f"calculator A has zero accuracy {given['cZeroFindingAccuracy']} ft but still refined the elevation ({za!r} rad)", case)
         if not zb > 1e-4:
             ctx.violation("accuracy-leaked", f"default calculator B returned elevation {zb!r} rad: it was affected by A's accuracy", case)
@@ -272,6 +277,8 @@ def check_settings(ctx, case):
             except pb.ZeroFindingError as e:
                 if e.iterations_count > given["cMaxIterations"]:
                     ctx.violation("iteration-cap-exceeded", f"{e.iterations_count} iterations with cMaxIterations = {given['cMaxIterations']}", case)
+            except pb.RangeError:
+                ctx.count("iteration_cap_out_of_reach_under_own_limits")
             try:
                 b.barrel_elevation_for_target(build.shot(zspec), Distance.Foot(900.0))
             except pb.ZeroFindingError:
